@@ -18,6 +18,7 @@ import (
 	"time"
 
 	"github.com/bufbuild/verifharness/internal/reg"
+	"google.golang.org/protobuf/encoding/protowire"
 	"google.golang.org/protobuf/proto"
 	"google.golang.org/protobuf/types/descriptorpb"
 	"google.golang.org/protobuf/types/pluginpb"
@@ -65,6 +66,8 @@ func PluginMain() {
 		// the descriptors this plugin received, for stages that judge their content
 		b, _ := proto.Marshal(&descriptorpb.FileDescriptorSet{File: req.GetProtoFile()})
 		_ = os.WriteFile(filepath.Join(dir, fmt.Sprintf("%s-%d.binpb", rec.Name, os.Getpid())), b, 0o644)
+		b, _ = proto.Marshal(&descriptorpb.FileDescriptorSet{File: req.GetSourceFileDescriptors()})
+		_ = os.WriteFile(filepath.Join(dir, fmt.Sprintf("%s-%d.source", rec.Name, os.Getpid())), b, 0o644)
 	}
 	if dir := params["log"]; dir != "" {
 		b, _ := json.Marshal(rec)
@@ -175,8 +178,18 @@ func runCLI(in []byte) (*reg.Result, error) {
 					}
 				}
 				_ = os.WriteFile(filepath.Join(ws, "buf.yaml"), []byte("version: v2\n"), 0o644)
+				// every fourth case: the template says the opposite and the command line decides (an explicit =false
+				// overrides a true of the template just as =true overrides a false)
+				viaFlags := i%4 == 3
+				tmplImports, tmplWKT := c.IncludeImports, c.IncludeWKT
+				if viaFlags {
+					tmplImports, tmplWKT = true, true
+					if c.IncludeImports && c.IncludeWKT {
+						tmplImports, tmplWKT = false, false
+					}
+				}
 				p1 := fmt.Sprintf("  - local: [%q, \"codegen-plugin\"]\n    out: out\n    opt:\n      - log=%s\n      - name=p1\n    strategy: %s\n    include_imports: %v\n    include_wkt: %v\n",
-					exe, logDir, c.Strategy, c.IncludeImports, c.IncludeWKT)
+					exe, logDir, c.Strategy, tmplImports, tmplWKT)
 				// a second plugin with a type filter of its own, before or after the observed one: it must not change
 				// what the observed plugin receives
 				first := c.Targets[0]
@@ -192,6 +205,9 @@ func runCLI(in []byte) (*reg.Result, error) {
 				}
 				_ = os.WriteFile(filepath.Join(ws, "buf.gen.yaml"), []byte(gen), 0o644)
 				args := []string{"generate"}
+				if viaFlags {
+					args = append(args, fmt.Sprintf("--include-imports=%v", c.IncludeImports), fmt.Sprintf("--include-wkt=%v", c.IncludeWKT))
+				}
 				if len(c.Targets) < 4 {
 					for _, t := range c.Targets {
 						args = append(args, "--path", pathOf[t])
@@ -423,5 +439,138 @@ func runCLIResponses(in []byte) (*reg.Result, error) {
 	}
 	close(ch)
 	wg.Wait()
+	return res, nil
+}
+
+// ProtocStandinMain stands in for protoc when buf runs a protoc_builtin plugin: it answers --version and otherwise
+// stores the descriptor set it is handed on standard input (usage in a template: protoc_path: [vh, protoc-standin, dir]).
+func ProtocStandinMain() {
+	dir := ""
+	if len(os.Args) > 2 {
+		dir = os.Args[2]
+	}
+	for _, a := range os.Args[3:] {
+		if a == "--version" {
+			fmt.Println("libprotoc 27.1")
+			return
+		}
+	}
+	data, _ := io.ReadAll(os.Stdin)
+	_ = os.WriteFile(filepath.Join(dir, fmt.Sprintf("protoc-%d.binpb", os.Getpid())), data, 0o644)
+}
+
+func init() { reg.Register("codegen-cli-retention", runCLIRetention) }
+
+// runCLIRetention: a file to generate with a source-retention option and a runtime option on a message, generated by
+// a local plugin and by a protoc_builtin plugin (stand-in protoc). The local plugin must get the runtime view in
+// proto_file and the source view in source_file_descriptors; protoc derives the runtime view itself, so the set
+// handed to it must be the source view.
+func runCLIRetention(in []byte) (*reg.Result, error) {
+	var inp cliInput
+	if err := reg.Decode(in, &inp); err != nil {
+		return nil, err
+	}
+	exe := inp.Exe
+	if exe == "" {
+		exe, _ = os.Executable()
+	}
+	res := &reg.Result{}
+	root := filepath.Join(reg.WorkDir(), "codegen-cli-retention")
+	defer os.RemoveAll(root)
+	ws, dump := filepath.Join(root, "ws"), filepath.Join(root, "dump")
+	for _, d := range []string{ws, dump} {
+		if err := os.MkdirAll(d, 0o755); err != nil {
+			return nil, err
+		}
+	}
+	src := `syntax = "proto3";
+package ret.v1;
+import "google/protobuf/descriptor.proto";
+extend google.protobuf.MessageOptions {
+  string src_note = 50017 [retention = RETENTION_SOURCE];
+  string rt_note = 50018;
+}
+message M {
+  option (src_note) = "only for generators";
+  option (rt_note) = "kept at runtime";
+  string id = 1;
+}
+`
+	_ = os.WriteFile(filepath.Join(ws, "a.proto"), []byte(src), 0o644)
+	_ = os.WriteFile(filepath.Join(ws, "buf.yaml"), []byte("version: v2\n"), 0o644)
+	gen := fmt.Sprintf("version: v2\nplugins:\n  - local: [%q, \"codegen-plugin\"]\n    out: gen1\n    opt:\n      - dump=%s\n      - name=p1\n  - protoc_builtin: java\n    protoc_path: [%q, \"protoc-standin\", %q]\n    out: gen2\n", exe, dump, exe, dump)
+	_ = os.WriteFile(filepath.Join(ws, "buf.gen.yaml"), []byte(gen), 0o644)
+	cmd := exec.Command(inp.Buf, "generate")
+	cmd.Dir = ws
+	cmd.Env = append(os.Environ(), "HOME="+root, "BUF_CACHE_DIR="+filepath.Join(root, "cache"), "NO_COLOR=1")
+	var stderr bytes.Buffer
+	cmd.Stderr = &stderr
+	res.Count(1, 1)
+	info := map[string]any{"buf.gen.yaml": gen}
+	if err := cmd.Run(); err != nil {
+		res.Violate("cli/retention/generate-failed", info, "buf generate failed: %v %s", err, stderr.String())
+		return res, nil
+	}
+	optionsOfM := func(path string) (map[int32]bool, bool) {
+		b, err := os.ReadFile(path)
+		if err != nil {
+			return nil, false
+		}
+		set := &descriptorpb.FileDescriptorSet{}
+		if err := proto.Unmarshal(b, set); err != nil {
+			return nil, false
+		}
+		for _, fd := range set.File {
+			if fd.GetName() != "a.proto" || len(fd.MessageType) == 0 {
+				continue
+			}
+			nums := map[int32]bool{}
+			unknown := fd.MessageType[0].GetOptions().ProtoReflect().GetUnknown()
+			for len(unknown) > 0 {
+				num, typ, n := protowire.ConsumeTag(unknown)
+				if n < 0 {
+					break
+				}
+				unknown = unknown[n:]
+				n = protowire.ConsumeFieldValue(num, typ, unknown)
+				if n < 0 {
+					break
+				}
+				unknown = unknown[n:]
+				nums[int32(num)] = true
+			}
+			return nums, true
+		}
+		return nil, false
+	}
+	entries, _ := os.ReadDir(dump)
+	seen := map[string]bool{}
+	for _, e := range entries {
+		nums, ok := optionsOfM(filepath.Join(dump, e.Name()))
+		var kind string
+		want := map[int32]bool{50018: true}
+		switch {
+		case strings.HasPrefix(e.Name(), "p1-") && strings.HasSuffix(e.Name(), ".binpb"):
+			kind = "local-plugin/proto_file" // runtime view
+		case strings.HasPrefix(e.Name(), "p1-") && strings.HasSuffix(e.Name(), ".source"):
+			kind, want = "local-plugin/source_file_descriptors", map[int32]bool{50017: true, 50018: true}
+		case strings.HasPrefix(e.Name(), "protoc-"):
+			kind, want = "protoc-builtin/descriptor_set_in", map[int32]bool{50017: true, 50018: true}
+		default:
+			continue
+		}
+		seen[kind] = true
+		if inp.Corrupt {
+			want[50019] = true
+		}
+		if !ok || fmt.Sprint(nums) != fmt.Sprint(want) {
+			res.Violate("cli/retention/"+kind, info, "%s: message M of the file to generate carries the custom options %v, expected %v (50017 is declared with retention = RETENTION_SOURCE)", kind, nums, want)
+		}
+	}
+	for _, k := range []string{"local-plugin/proto_file", "local-plugin/source_file_descriptors", "protoc-builtin/descriptor_set_in"} {
+		if !seen[k] {
+			res.Violate("cli/retention/not-observed/"+k, info, "nothing recorded for %s: %s", k, stderr.String())
+		}
+	}
 	return res, nil
 }
